@@ -1304,6 +1304,7 @@ Proof. eexists. split; [reflexivity|]. split; reflexivity. Qed.
 (* ------------------------------------------------------------------ the same, for the writer
    driven by the header items regenerated from the source on this run (Gen.v, Bridge.v) *)
 Require Import SkV.C18.Gen SkV.C18.Bridge.
+Open Scope Z_scope.
 
 Lemma code_ts_roundtrip o panel vals :
   opts_ok o -> panel <> [] -> Forall row_ok panel -> vals_ok o panel vals ->
@@ -1361,3 +1362,119 @@ Lemma ex_nonvacuous :
     Ok ([[[L "1.000000e+00"; L "-2.500000e-06"; L "3.000000e+09"]]; [[L "0.1"; L "7"; L "-0.25"]]],
         Some [L "aa"; L "b"]).
 Proof. exact (conj ex_hypotheses ex_roundtrip). Qed.
+
+(* ------------------------------------------------------------------ the historic defect
+   (fixed in /repo): with the unlabelled header line spelled "@class_label false" the parser's
+   chain falls through on it, the metadata stays incomplete and EVERY written unlabelled panel is
+   rejected at its first case line -- the model exhibits it, the round-trip theorem excludes it
+   only through Bridge.v's equality with the regenerated header items *)
+Definition old_writer_header : list (wguard * list wpart) :=
+  map (fun it => match it with
+                 | (GNoClassLabel, _) => (GNoClassLabel, [Lit "@class_label false"])
+                 | _ => it
+                 end) writer_header.
+
+Lemma old_writer_header_unreadable :
+  exists o panel lines,
+    opts_ok o /\ panel <> [] /\ Forall row_ok panel /\ vals_ok o panel [] /\
+    write_ts_with old_writer_header o panel [] = Ok lines /\ parse_ts lines = Err.
+Proof.
+  exists (mkW (L "p") false true [] false (-1) []), [[L "1"]]. eexists.
+  split; [|split; [discriminate|split; [|split; [left; split; reflexivity|split; reflexivity]]]].
+  - split; [split; [discriminate|reflexivity]|]. split; [reflexivity|]. split; [reflexivity|].
+    split; [constructor|]. split; [discriminate|exact I].
+  - repeat constructor; discriminate.
+Qed.
+
+(* ------------------------------------------------------------------ every accepted file is a
+   rectangular frame: all instances have the same, positive number of dimensions *)
+Lemma parse_dims_length : forall ds r, parse_dims ds = Ok r -> List.length r = List.length ds.
+Proof.
+  induction ds as [|d t IH]; intros r H; [inversion H; reflexivity|].
+  cbn [parse_dims] in H. destruct (parse_dim d); [|discriminate].
+  destruct (parse_dims t) as [r'|]; [|discriminate]. inversion H; subst.
+  cbn [List.length]. f_equal. apply IH. reflexivity.
+Qed.
+
+Lemma case_core_dims cl nd0 line nd r lab : case_core cl nd0 line = Ok (nd, r, lab) ->
+  len r = nd /\ 0 <= nd /\ (forall n, nd0 = Some n -> nd = n).
+Proof.
+  unfold case_core. set (dims := split_on ch_colon line).
+  assert (Hd : 1 <= len dims).
+  { unfold len. pose proof (split_on_nonnil ch_colon line). fold dims in H.
+    destruct dims; [congruence|]. cbn [List.length]. lia. }
+  set (this := len dims - (if cl then 1 else 0)).
+  assert (Ht : 0 <= this <= len dims) by (unfold this; destruct cl; lia).
+  destruct (negb (this =? match nd0 with Some n => n | None => this end)) eqn:E; [discriminate|].
+  destruct (parse_dims _) as [r'|] eqn:Ep; [|discriminate]. intro H. inversion H; subst. clear H.
+  apply parse_dims_length in Ep. rewrite firstn_length in Ep.
+  assert (Hnd : match nd0 with Some n => n | None => this end = this) by lia.
+  split; [rewrite Hnd in *; unfold len in *; lia|]. split; [lia|].
+  intros n Hn. rewrite Hn in *. reflexivity.
+Qed.
+
+Lemma ts_step_rows s raw s' : ts_step s raw = Ok s' ->
+  (num_dims s' = num_dims s /\ rows_rev s' = rows_rev s) \/
+  (exists cl line nd r lab, case_core cl (num_dims s) line = Ok (nd, r, lab) /\
+                            num_dims s' = Some nd /\ rows_rev s' = r :: rows_rev s).
+Proof.
+  unfold ts_step. intros H.
+  destruct (lower (strip raw)) as [|c0 rest] eqn:El; [inversion H; subst; left; split; reflexivity|].
+  destruct (startswith tag_problemname (c0 :: rest)).
+  { destruct (data_started s); [discriminate|]. destruct (len _ =? 1); [discriminate|].
+    inversion H; subst. left; split; reflexivity. }
+  destruct (startswith tag_timestamps (c0 :: rest)).
+  { destruct (data_started s); [discriminate|]. destruct (negb _); [discriminate|].
+    destruct (bool_token _); [|discriminate]. inversion H; subst. left; split; reflexivity. }
+  destruct (startswith tag_univariate (c0 :: rest)).
+  { destruct (data_started s); [discriminate|]. destruct (negb _); [discriminate|].
+    destruct (bool_token _); [|discriminate]. inversion H; subst. left; split; reflexivity. }
+  destruct (startswith tag_classlabel (c0 :: rest)).
+  { destruct (data_started s); [discriminate|]. destruct (len _ =? 1); [discriminate|].
+    destruct (bool_token _) as [b|]; [|discriminate].
+    destruct ((len _ =? 2) && b); [discriminate|]. inversion H; subst. left; split; reflexivity. }
+  destruct (startswith tag_data (c0 :: rest)).
+  { destruct (negb _); [discriminate|]. destruct (_ && _); [discriminate|].
+    inversion H; subst. left; split; reflexivity. }
+  destruct (data_started s); [|inversion H; subst; left; split; reflexivity].
+  unfold data_line in H. destruct (negb (full_metadata s)); [discriminate|].
+  destruct (timestamps s) as [[|]|]; try discriminate.
+  destruct (class_labels s) as [cl|]; [|discriminate].
+  destruct (case_core cl (num_dims s) _) as [[[nd r] lab]|] eqn:Ecc; [|discriminate].
+  inversion H; subst. right. do 5 eexists. split; [exact Ecc|]. split; reflexivity.
+Qed.
+
+Definition inv_dims (s : pstate) : Prop :=
+  match num_dims s with
+  | Some nd => 0 <= nd /\ Forall (fun r => len r = nd) (rows_rev s)
+  | None => rows_rev s = []
+  end.
+
+Lemma run_ts_inv_dims : forall lines s s', run ts_step s lines = Ok s' -> inv_dims s -> inv_dims s'.
+Proof.
+  induction lines as [|l t IH]; intros s s' H I; [inversion H; subst; exact I|].
+  cbn [run] in H. destruct (ts_step s l) as [s1|] eqn:E; [|discriminate].
+  apply (IH s1 s' H). clear IH H.
+  destruct (ts_step_rows s l s1 E) as [[H1 H2]|(cl & line & nd & r & lab & Hc & H1 & H2)];
+    unfold inv_dims in *.
+  - rewrite H1, H2. exact I.
+  - rewrite H1, H2. destruct (case_core_dims _ _ _ _ _ _ Hc) as (Hr & Hnd & Hsame).
+    split; [exact Hnd|]. constructor; [exact Hr|].
+    destruct (num_dims s) as [n|]; [|rewrite I; constructor].
+    rewrite (Hsame n eq_refl). apply I.
+Qed.
+
+Theorem parse_ts_rectangular lines rows labs : parse_ts lines = Ok (rows, labs) ->
+  exists nd, 0 < nd /\ Forall (fun r => len r = nd) rows.
+Proof.
+  unfold parse_ts. destruct lines as [|l0 lr]; [discriminate|].
+  destruct (run ts_step init_state (l0 :: lr)) as [s|] eqn:E; [|discriminate].
+  assert (I : inv_dims s) by (apply (run_ts_inv_dims _ _ _ E); reflexivity).
+  unfold ts_finish. destruct (_ && _); [discriminate|]. destruct (_ && _); [discriminate|].
+  unfold inv_dims in I. destruct (num_dims s) as [nd|]; [|discriminate].
+  destruct (nd =? 0) eqn:E0; [discriminate|]. destruct I as [Hnd HF].
+  assert (Hrev : Forall (fun r => len r = nd) (rev (rows_rev s))).
+  { apply Forall_forall. intros r Hr. apply in_rev in Hr. rewrite Forall_forall in HF. auto. }
+  destruct (class_labels s) as [[|]|]; try discriminate; intro H; inversion H; subst;
+    exists nd; (split; [lia|exact Hrev]).
+Qed.
